@@ -110,6 +110,24 @@ pub fn contract_named_number_lookup<C: Ctx>(cx: &mut C) {
     { let _ = cx; }
 }
 
+/// accessor for the native replay of the Verus clauses C04.find_name.* (unit C07_lookup): the definitions as (name, kind, declared names with numbers);
+/// kind 0 = INTEGER with named numbers, 1 = ENUMERATED, 2 = INTEGER value assignment (its first number is the value)
+#[cfg(not(kani))]
+pub fn hook_find_name(type_name: &str, name: &str, defs: &[(String, u8, Vec<(String, i128)>)]) -> Option<i128> {
+    use crate::intermediate::types::*;
+    let mut tlds: BTreeMap<String, ToplevelDefinition> = BTreeMap::new();
+    for (n, kind, items) in defs {
+        let d = match kind {
+            0 => ToplevelDefinition::Type(ToplevelTypeDefinition { comments: String::new(), tag: None, name: n.clone(), parameterization: None, module_header: None,
+                ty: ASN1Type::Integer(Integer { constraints: vec![], distinguished_values: Some(items.iter().map(|(i, v)| DistinguishedValue { name: i.clone(), value: *v }).collect()) }) }),
+            1 => ToplevelDefinition::Type(ToplevelTypeDefinition { comments: String::new(), tag: None, name: n.clone(), parameterization: None, module_header: None,
+                ty: ASN1Type::Enumerated(Enumerated { members: items.iter().map(|(i, v)| Enumeral { name: i.clone(), description: None, index: *v }).collect(), extensible: None, constraints: vec![] }) }),
+            _ => ToplevelDefinition::Value(ToplevelValueDefinition::from((n.as_str(), ASN1Value::Integer(items.first().map_or(0, |x| x.1)), ASN1Type::Integer(Integer { constraints: vec![], distinguished_values: None })))),
+        };
+        tlds.insert(n.clone(), d);
+    }
+    match find_tld_or_enum_value_by_name(&type_name.to_string(), &name.to_string(), &tlds) { Some(ASN1Value::Integer(i)) => Some(i), Some(_) => Some(i128::MIN), None => None }
+}
 #[cfg(not(kani))]
 pub fn hook_octet_string_to_bit_string(bytes: &[u8]) -> Vec<bool> { octet_string_to_bit_string(bytes) }
 pub fn hook_bit_string_to_octet_string(bits: &[bool]) -> Option<Vec<u8>> { bit_string_to_octet_string(bits).ok() }
